@@ -1,5 +1,5 @@
 CONSTANTS
-  Alphabet = {";", "=", "n", "s", "i", "g", "b", "1", "a", "~"}
+  Alphabet = {";", "=", "n", "s", "i", "g", "b", "1", "a", "~", " "}
   MaxLen = 2
   PairLen = 1
   Namespaces = {0, 1, 255, 256, 65535}
